@@ -54,6 +54,63 @@ theorem C17_hidden_onceo {ord : Order} (ho : OrderOK ord) (dfs : Call → State 
     ((∃ γ, Sem NoI γ c) → ys.head?.isSome = true) ∧ (ds = [] → ys.head? = none) :=
   hidden_labelling_engine ho dfs pf m ks n N c ds ys hn hi hp hops hks hko h hall hd
 
+/-- `verify_all_bound` + the documented operand kinds give `OpsOK`: if `allBound` answers true, no CLP(Z) constraint is
+    stored and every operand of every stored propagator walks to a variable or a number, then every operand is a number or
+    a variable WITH A DOMAIN -/
+theorem C17_opsOK_of_allBound (c : State) (hab : c.allBound = true) (hz : NoZ c)
+    (hkind : ∀ p ∈ c.store, p.2.isDiseq = false → ∀ u ∈ operandsOf p.2, (walk c.σ u).isVar = true ∨ (walk c.σ u).isNum = true) :
+    OpsOK c := by
+  intro p hp hd u hu
+  have hfd : p.2.isFD = true := by
+    have := hz p hp
+    cases hc : p.2 <;> simp_all [Cst.isDiseq, Cst.isFD, Cst.isZ]
+  unfold State.allBound at hab
+  have h1 := (List.all_eq_true.1 hab) p hp
+  simp only [hfd, Bool.not_true, Bool.false_or] at h1
+  have h2 := (List.all_eq_true.1 h1) u hu
+  rcases hkind p hp hd u hu with hv | hn
+  · cases hw : walk c.σ u with
+    | var x => rw [hw] at h2; exact .inr ⟨x, rfl, h2⟩
+    | _ => rw [hw] at hv; cases hv
+  · cases hw : walk c.σ u with
+    | val a =>
+      cases a with
+      | num n => exact .inl ⟨n, rfl⟩
+      | _ => rw [hw] at hn; cases hn
+    | _ => rw [hw] at hn; cases hn
+
+/-- `C17_hidden_onceo` for EXACTLY the goal `enforce_constraints_fd` builds: the list of ALL keys of the domain store, in the
+    hash-iteration order `ord.ds`, labelled with the model's fuel (more keys than the fuel would poison the result).  The key
+    list contains every variable with a domain and — the keys being unbound (`C16_domain_keys_unbound`) — only variables in
+    the state the lemma wants -/
+theorem C17_hidden_onceo_model {ord : Order} (ho : OrderOK ord) (dfs : Call → State → State × G) (pf m : Nat)
+    (N : Nat) (c : State) (ds ys : List State)
+    (hn : c.dstore.length < forceFuel) (hi : LInv c) (hp : c.panic = none) (hops : OpsOK c)
+    (h : evalRef dfs N (forceAns ord forceFuel (Term.ofList ((ord.ds c.dstore).map fun p => Term.var p.1))) c = some ds)
+    (hall : ∀ t ∈ ds, t.panic = none)
+    (hd : drainF (solveAt dfs pf (m + 1)) pf
+      (start dfs (solveAt dfs pf (m + 1)) pf
+        (Goal.conjOfList [forceAns ord forceFuel (Term.ofList ((ord.ds c.dstore).map fun p => Term.var p.1))]) c) = some ys) :
+    start dfs (solveAt dfs pf (m + 1)) pf
+        (Goal.onceo [forceAns ord forceFuel (Term.ofList ((ord.ds c.dstore).map fun p => Term.var p.1))]) c =
+      firstStrm ys.head? ∧
+    (∀ b, ys.head? = some b → b.dstore = [] ∧ (∀ p ∈ b.store, p.2.isDiseq = true) ∧ ∀ γ, Sem NoI γ b → Sem NoI γ c) ∧
+    ((∃ γ, Sem NoI γ c) → ys.head?.isSome = true) ∧ (ds = [] → ys.head? = none) := by
+  have hperm := ho.2.2 c.dstore
+  have hmap : (ord.ds c.dstore).map (fun p => Term.var p.1) = ((ord.ds c.dstore).map (·.1)).map Term.var := by
+    rw [List.map_map]; rfl
+  rw [hmap] at h hd ⊢
+  have hks : ∀ y, (c.dget y).isSome → y ∈ (ord.ds c.dstore).map (·.1) := fun y hy => by
+    obtain ⟨q, hq, e⟩ := dget_isSome_iff.1 hy
+    exact List.mem_map.2 ⟨q, hperm.mem_iff.2 hq, e⟩
+  have hko : ∀ k ∈ (ord.ds c.dstore).map (·.1), c.σ k = .var k ∨ ∃ m, c.σ k = Term.num m := fun k hk => by
+    obtain ⟨q, hq, e⟩ := List.mem_map.1 hk
+    have : (c.dget k).isSome := dget_isSome_iff.2 ⟨q, hperm.mem_iff.1 hq, e⟩
+    exact .inl ((hi.dk k this).elim id (fun f => f.elim))
+  have hlen : ((ord.ds c.dstore).map (·.1)).length < forceFuel := by
+    rw [List.length_map, hperm.length_eq]; exact hn
+  exact (hidden_labelling_engine ho dfs pf m _ forceFuel N c ds ys hlen hi hp hops hks hko h hall hd).2
+
 /-- ASSEMBLY OF `enforce_constraints_fd` ON THE ENGINE (Proofs/ReifyGoal.lean `enforce_compose`): the labelling of the
     query term delivers blocks `xs`; from block `c` the `onceo` over the remaining domain variables delivers `o c`
     (`C17_hidden_onceo`: at most one closed state, one iff the block has a solution).  The whole goal then delivers, in some
